@@ -270,6 +270,19 @@ fn main() {
     println(o.to_json());
 }
 `},
+	// objects whose field names are alike (case, digits, prefixes of each other): rendered the same way every time
+	"display-of-objects-with-similar-keys": {"main": `fn main() {
+    let o = new { id: 1, ID: 2, Id: 3, iD: 4, name: "a", Name: "b", NAME: "c", a: 0, A: 0, a1: 1, A1: 1, aa: 2, aA: 2, Aa: 2, AA: 2 };
+    println(o);
+    println([o, o]);
+    let p = new { ? };
+    p.set("key", 1); p.set("KEY", 2); p.set("Key", 3); p.set("kEy", 4); p.set("keY", 5); p.set("k", 6); p.set("K", 7); p.set("", 8); p.set(" ", 9);
+    println(p);
+    println(p.keys());
+    println(p.to_json(), o.to_json());
+    println(?p, new { inner: p, INNER: o });
+}
+`},
 	// two spellings of one key in a parsed document
 	"json-keys-that-collapse": {"main": `fn main() {
     let o = "{\"\\u00e9\": 1, \"e\\u0301\": 2, \"a\": 3, \"\\u00e4\": 4, \"a\\u0308\": 5, \"\\uac00\": 6, \"\\u1100\\u1161\": 7}".parse_json() as { ? };
